@@ -134,6 +134,8 @@ theorem finishKid_kid (s : St) (i j t) (hi : i < s.kids.length) :
   unfold finishKid; simp only []; split <;> rfl
 @[simp] theorem finishKid_overlap (s : St) (i t) : (finishKid s i t).overlap = s.overlap := by
   unfold finishKid; simp only []; split <;> rfl
+@[simp] theorem finishKid_closeable (s : St) (i t) : (finishKid s i t).closeable = s.closeable := by
+  unfold finishKid; simp only []; split <;> rfl
 
 /-- the source is closed by `finishKid` only if afterwards no buffer is registered -/
 theorem finishKid_srcCloses (s : St) (i t) (hi : i < s.kids.length) :
@@ -749,14 +751,206 @@ theorem Inv.closeFrom_inv {s : St} (h : Inv s) (l : List Nat) (hl : ∀ i ∈ l,
       intro j hj
       rw [hlen]; exact hl j (by simp [hj])
 
+/-! ### `Tee.aclose`: the loop over the children, then `self._buffers.clear()` and closing the source -/
+
+theorem closeFrom_cons (s : St) (i : Nat) (rest : List Nat) :
+    closeFrom s (i :: rest) =
+      if (closeKid s i).2 = .busy then ((closeKid s i).1, .busy) else closeFrom (closeKid s i).1 rest := by
+  rw [closeFrom]
+  split
+  · rename_i s' heq; simp [heq]
+  · rename_i s' o hne heq
+    have : o ≠ .busy := hne
+    simp [heq, this]
+
+@[simp] theorem closeFrom_length (s : St) (l : List Nat) : (closeFrom s l).1.kids.length = s.kids.length := by
+  induction l generalizing s with
+  | nil => rfl
+  | cons i rest ih => rw [closeFrom_cons]; split <;> simp [ih]
+
+theorem closeKid_pc_done (s : St) (i : Nat) (hi : i < s.kids.length) (hb : (closeKid s i).2 ≠ .busy) :
+    ((closeKid s i).1.kid i).pc = .done := by
+  cases hp : (s.kid i).pc <;> simp [closeKid, hp] at hb ⊢
+  · simp [kid_setKid _ _ _ _ hi]
+  · simp [finishKid_kid _ _ _ _ hi, Child.finished]
+
+theorem closeKid_keeps_done (s : St) (i j : Nat) (hi : i < s.kids.length) (hd : (s.kid j).pc = .done) :
+    ((closeKid s i).1.kid j).pc = .done := by
+  by_cases hji : j = i
+  · subst hji; simp [closeKid, hd]
+  · cases hp : (s.kid i).pc <;>
+      simp [closeKid, hp, kid_setKid _ _ _ _ hi, finishKid_kid _ _ _ _ hi, hji, hd]
+
+theorem closeFrom_keeps_done (s : St) (l : List Nat) (hl : ∀ i ∈ l, i < s.kids.length) (j : Nat)
+    (hd : (s.kid j).pc = .done) : ((closeFrom s l).1.kid j).pc = .done := by
+  induction l generalizing s with
+  | nil => exact hd
+  | cons i rest ih =>
+    have hi : i < s.kids.length := hl i (by simp)
+    have h1 := closeKid_keeps_done s i j hi hd
+    rw [closeFrom_cons]
+    split
+    · exact h1
+    · exact ih _ (by intro k hk; rw [closeKid_length]; exact hl k (by simp [hk])) h1
+
+/-- a `Tee.aclose` loop that no child aborted has closed every child it went over -/
+theorem closeFrom_pc_done (s : St) (l : List Nat) (hl : ∀ i ∈ l, i < s.kids.length)
+    (hb : (closeFrom s l).2 ≠ .busy) : ∀ i ∈ l, ((closeFrom s l).1.kid i).pc = .done := by
+  induction l generalizing s with
+  | nil => intro i hi; simp at hi
+  | cons i rest ih =>
+    have hi : i < s.kids.length := hl i (by simp)
+    have hl' : ∀ k ∈ rest, k < (closeKid s i).1.kids.length := by
+      intro k hk; rw [closeKid_length]; exact hl k (by simp [hk])
+    rw [closeFrom_cons] at hb ⊢
+    split
+    · rename_i hbusy; simp [hbusy] at hb
+    · rename_i hnb
+      simp only [hnb, if_false] at hb
+      intro k hk
+      rcases List.mem_cons.1 hk with e | hk'
+      · subst e; exact closeFrom_keeps_done _ rest hl' k (closeKid_pc_done s k hi hnb)
+      · exact ih _ hl' hb k hk'
+
+theorem kid_clear (s : St) (j : Nat) (hj : j < s.kids.length) :
+    ({ s with kids := s.kids.map fun (c : Child) => { c with buf := none } } : St).kid j
+      = { s.kid j with buf := none } := by
+  simp [St.kid, List.getD_eq_getElem?_getD, hj]
+
+theorem any_some_iff (s : St) :
+    s.kids.any (fun c => c.buf.isSome) = false ↔ ∀ j, j < s.kids.length → (s.kid j).buf = none := by
+  rw [← all_none_iff]
+  induction s.kids with
+  | nil => simp
+  | cons c r ih => cases hb : c.buf <;> simp [hb, ih]
+
+@[simp] theorem clearBuffers_length (s : St) : (clearBuffers s).kids.length = s.kids.length := by
+  unfold clearBuffers; simp only []; split <;> (try split) <;> simp
+@[simp] theorem clearBuffers_fetched (s : St) : (clearBuffers s).fetched = s.fetched := by
+  unfold clearBuffers; simp only []; split <;> (try split) <;> rfl
+@[simp] theorem clearBuffers_src (s : St) : (clearBuffers s).src = s.src := by
+  unfold clearBuffers; simp only []; split <;> (try split) <;> rfl
+@[simp] theorem clearBuffers_srcEnded (s : St) : (clearBuffers s).srcEnded = s.srcEnded := by
+  unfold clearBuffers; simp only []; split <;> (try split) <;> rfl
+@[simp] theorem clearBuffers_srcKilled (s : St) : (clearBuffers s).srcKilled = s.srcKilled := by
+  unfold clearBuffers; simp only []; split <;> (try split) <;> rfl
+@[simp] theorem clearBuffers_withLock (s : St) : (clearBuffers s).withLock = s.withLock := by
+  unfold clearBuffers; simp only []; split <;> (try split) <;> rfl
+@[simp] theorem clearBuffers_suspPat (s : St) : (clearBuffers s).suspPat = s.suspPat := by
+  unfold clearBuffers; simp only []; split <;> (try split) <;> rfl
+@[simp] theorem clearBuffers_holder (s : St) : (clearBuffers s).holder = s.holder := by
+  unfold clearBuffers; simp only []; split <;> (try split) <;> rfl
+@[simp] theorem clearBuffers_overlap (s : St) : (clearBuffers s).overlap = s.overlap := by
+  unfold clearBuffers; simp only []; split <;> (try split) <;> rfl
+@[simp] theorem clearBuffers_closeable (s : St) : (clearBuffers s).closeable = s.closeable := by
+  unfold clearBuffers; simp only []; split <;> (try split) <;> rfl
+theorem clearBuffers_srcCloses_mono (s : St) : s.srcCloses ≤ (clearBuffers s).srcCloses := by
+  unfold clearBuffers; simp only []; split <;> (try split) <;> simp
+
+/-- `self._buffers.clear()`: every child keeps everything but its registration -/
+theorem clearBuffers_kid (s : St) (j : Nat) (hj : j < s.kids.length) :
+    (clearBuffers s).kid j = { s.kid j with buf := none } := by
+  unfold clearBuffers; simp only []
+  split
+  · split
+    · exact kid_clear s j hj
+    · exact kid_clear s j hj
+  · rename_i h
+    have := (any_some_iff s).1 (by simpa using h) j hj
+    cases hc : s.kid j with
+    | mk pc buf out task => rw [hc] at this; simp at this; subst this; rfl
+
+/-- `Tee.aclose` closes the source itself if a buffer was still registered -/
+theorem clearBuffers_srcCloses_of_any (s : St) (hany : s.kids.any (fun c => c.buf.isSome) = true)
+    (hc : s.closeable = true) : (clearBuffers s).srcCloses = s.srcCloses + 1 := by
+  unfold clearBuffers; simp only [hany, if_true]
+  split
+  · rfl
+  · rename_i h; exact absurd hc h
+
+theorem clearBuffers_srcCloses (s : St) (j : Nat) (hj : j < s.kids.length) (hb : (s.kid j).buf ≠ none)
+    (hc : s.closeable = true) : (clearBuffers s).srcCloses = s.srcCloses + 1 := by
+  refine clearBuffers_srcCloses_of_any s ?_ hc
+  cases h : s.kids.any (fun c => c.buf.isSome) with
+  | true => rfl
+  | false => exact absurd ((any_some_iff s).1 h j hj) hb
+
+theorem Inv.clearBuffers_inv {s : St} (h : Inv s)
+    (hd : ∀ j, j < s.kids.length → (s.kid j).pc = .done) : Inv (clearBuffers s) := by
+  obtain ⟨⟨d1, d2, d3, d4, d5, d6⟩, h1, h2, h3, h4, h5⟩ := h
+  have hk := clearBuffers_kid s
+  have hdead : s.srcDead = true → (clearBuffers s).srcDead = true := by
+    have := clearBuffers_srcCloses_mono s
+    simp only [St.srcDead, clearBuffers_srcEnded, clearBuffers_srcKilled, Bool.or_eq_true, decide_eq_true_eq]
+    intro h; rcases h with h | h
+    · exact Or.inl h
+    · exact Or.inr (by omega)
+  have hsafe : Safe (clearBuffers s) ↔ Safe s := by simp [Safe, NoSusp]
+  have hns : NoSusp (clearBuffers s) ↔ NoSusp s := by simp [NoSusp]
+  refine ⟨⟨?_, ?_, ?_, ?_, ?_, ?_⟩, ?_, ?_, ?_, ?_, ?_⟩ <;>
+    simp only [clearBuffers_length, clearBuffers_fetched, clearBuffers_src, clearBuffers_srcEnded,
+      clearBuffers_srcKilled, clearBuffers_withLock, clearBuffers_holder, clearBuffers_overlap, hsafe, hns]
+  · intro j hj b hb; rw [hk j hj] at hb; simp at hb
+  · intro j hj _; rw [hk j hj]
+    refine ⟨?_, hd j hj⟩
+    cases hb : (s.kid j).buf with
+    | none => exact (d2 j hj hb).1
+    | some b => exact ⟨b, d1 j hj b hb⟩
+  · intro _ j hj; rw [hk j hj]
+  · exact d4
+  · intro hs j hj ht; rw [hk j hj] at ht ⊢
+    have := d5 hs j hj ht
+    exact ⟨this.1, hdead this.2.1, this.2.2⟩
+  · exact d6
+  · intro x hx; have := h1 x hx; rw [hk x this.1]; exact this
+  · intro hw j hj; rw [hk j hj]; exact h2 hw j hj
+  · intro j hj; rw [hk j hj]; exact h3 j hj
+  · intro _ j hj; rw [hk j hj]; intro hf
+    have := hd j hj
+    simp [this, isFetching] at hf
+  · intro hw hn j hj; rw [hk j hj]; exact h5 hw hn j hj
+
+/-- `Tee.aclose` was aborted by a busy child: only the loop ran -/
+theorem closeAll_busy (s : St) (hb : (closeFrom s (List.range s.kids.length)).2 = .busy) :
+    closeAll s = closeFrom s (List.range s.kids.length) := by
+  unfold closeAll; simp only [hb]
+
+/-- `Tee.aclose` went over all children: the rest is unregistered -/
+theorem closeAll_not_busy (s : St) (hb : (closeFrom s (List.range s.kids.length)).2 ≠ .busy) :
+    closeAll s = (clearBuffers (closeFrom s (List.range s.kids.length)).1,
+      (closeFrom s (List.range s.kids.length)).2) := by
+  unfold closeAll; simp only []
+
+theorem closeAll_out_busy (s : St) :
+    (closeAll s).2 = .busy ↔ (closeFrom s (List.range s.kids.length)).2 = .busy := by
+  by_cases hb : (closeFrom s (List.range s.kids.length)).2 = .busy
+  · rw [closeAll_busy s hb]
+  · rw [closeAll_not_busy s hb]
+
+@[simp] theorem closeAll_length (s : St) : (closeAll s).1.kids.length = s.kids.length := by
+  by_cases hb : (closeFrom s (List.range s.kids.length)).2 = .busy
+  · rw [closeAll_busy s hb]; simp
+  · rw [closeAll_not_busy s hb]; simp
+
+theorem range_lt (s : St) : ∀ i ∈ List.range s.kids.length, i < s.kids.length := by
+  intro i hi; simpa using hi
+
+theorem Inv.closeAll_inv {s : St} (h : Inv s) : Inv (closeAll s).1 := by
+  have h1 := h.closeFrom_inv _ (range_lt s)
+  by_cases hb : (closeFrom s (List.range s.kids.length)).2 = .busy
+  · rw [closeAll_busy s hb]; exact h1
+  · rw [closeAll_not_busy s hb]
+    refine h1.clearBuffers_inv ?_
+    intro j hj
+    rw [closeFrom_length] at hj
+    exact closeFrom_pc_done s _ (range_lt s) hb j (by simpa using hj)
+
 theorem Inv.step_inv {s : St} (h : Inv s) (op : Op) : Inv (step s op).1 := by
   cases op with
   | sched i => simp only [step]; split; exact h.sched_inv i ‹_›; exact h
   | close i => simp only [step]; split; exact h.closeKid_inv i ‹_›; exact h
   | cancel i => simp only [step]; split; exact h.cancel_inv i ‹_›; exact h
-  | closeAll =>
-    simp only [step]
-    exact h.closeFrom_inv _ (by intro i hi; simpa using hi)
+  | closeAll => exact h.closeAll_inv
 
 theorem Inv.runOps_inv {s : St} (h : Inv s) (ops : List Op) : Inv (runOps s ops) := by
   induction ops generalizing s with
@@ -855,6 +1049,13 @@ def St.total (s : St) : List Val := s.fetched ++ s.src
     · rename_i s' o hne heq
       have : s' = (closeKid s i).1 := by rw [heq]
       rw [ih, this]; simp
+
+@[simp] theorem total_clearBuffers (s : St) : (clearBuffers s).total = s.total := by simp [St.total]
+
+@[simp] theorem total_closeAll (s : St) : (closeAll s).1.total = s.total := by
+  by_cases hb : (closeFrom s (List.range s.kids.length)).2 = .busy
+  · rw [closeAll_busy s hb]; simp
+  · rw [closeAll_not_busy s hb]; simp
 
 @[simp] theorem total_step (s : St) (op) : (step s op).1.total = s.total := by
   cases op <;> simp only [step] <;> (try split) <;> simp
@@ -1111,6 +1312,11 @@ theorem closeFrom_out (s : St) (l : List Nat) : (closeFrom s l).2 = .closed ∨ 
     · simp
     · exact ih _
 
+theorem closeAll_out (s : St) : (closeAll s).2 = .closed ∨ (closeAll s).2 = .busy := by
+  by_cases hb : (closeFrom s (List.range s.kids.length)).2 = .busy
+  · rw [closeAll_busy s hb]; exact Or.inr hb
+  · rw [closeAll_not_busy s hb]; exact closeFrom_out s _
+
 theorem cancel_out (s : St) (i : Nat) : (cancel s i).2 = .cancelled ∨ (cancel s i).2 = .noop := by
   unfold cancel; split
   · split <;> simp
@@ -1129,7 +1335,7 @@ theorem Inv.step_noerr {s : St} (h : Inv s) (op : Op) : (step s op).2 ≠ .error
     · simp
   | closeAll =>
     simp only [step]
-    rcases closeFrom_out s (List.range s.kids.length) with e | e <;> rw [e] <;> simp
+    rcases closeAll_out s with e | e <;> rw [e] <;> simp
 
 /-! ### closing or cancelling child `i` does not touch the others -/
 
@@ -1204,11 +1410,13 @@ theorem cancel_eff (s : St) (i : Nat) (hi : i < s.kids.length) :
       · intro hd; exact Or.inr ⟨hd, Iff.rfl⟩
   · exact Eff.refl s i _ (by simp)
 
-/-- the operation closes a child that has never been advanced (for `Tee.aclose`: some child has
-    never been advanced) -/
+/-- the operation closes a child that has never been advanced and leaves its buffer registered:
+    `child.aclose()` of such a child; `Tee.aclose()` only when it is aborted by a busy child
+    (RuntimeError) while some child has never been advanced — a `Tee.aclose()` that goes over all
+    children unregisters whatever is left by itself -/
 def earlyClose (s : St) : Op → Bool
   | .close i => decide (i < s.kids.length) && decide ((s.kid i).pc = .unstarted)
-  | .closeAll => s.kids.any (fun c => decide (c.pc = .unstarted))
+  | .closeAll => s.kids.any (fun c => decide (c.pc = .unstarted)) && decide ((closeAll s).2 = .busy)
   | _ => false
 
 /-- no operation of the sequence closes a child before its first step -/
@@ -1273,7 +1481,15 @@ theorem Tidy.step_tidy {s : St} (h : Tidy s) (op : Op) (hne : earlyClose s op = 
   | cancel i => simp only [step]; split; exact h.eff (cancel_eff s i ‹_›); exact h
   | closeAll =>
     simp only [step]
-    exact h.closeFrom_tidy _ (by intro i hi; simpa using hi) ((any_unstarted_iff s).1 hne)
+    by_cases hb : (closeFrom s (List.range s.kids.length)).2 = .busy
+    · have hu : s.kids.any (fun c => decide (c.pc = .unstarted)) = false := by
+        simpa [earlyClose, (closeAll_out_busy s).2 hb] using hne
+      rw [closeAll_busy s hb]
+      exact h.closeFrom_tidy _ (range_lt s) ((any_unstarted_iff s).1 hu)
+    · rw [closeAll_not_busy s hb]
+      intro j hj _
+      rw [clearBuffers_length] at hj
+      rw [clearBuffers_kid _ j hj]
 
 theorem Tidy.runOps_tidy {s : St} (h : Tidy s) (ops : List Op) (hne : NoEarlyClose s ops) :
     Tidy (runOps s ops) := by
@@ -1289,7 +1505,7 @@ theorem init_tidy (items : List Val) (n : Nat) (susp : List Nat) (lock closeable
 
 /-! ## The configuration (lock or not, suspension script) never changes -/
 
-def St.cfg (s : St) : Bool × List Nat := (s.withLock, s.suspPat)
+def St.cfg (s : St) : Bool × List Nat × Bool := (s.withLock, s.suspPat, s.closeable)
 
 @[simp] theorem cfg_setKid (s : St) (i c) : (s.setKid i c).cfg = s.cfg := rfl
 @[simp] theorem cfg_release (s : St) (i) : (release s i).cfg = s.cfg := by simp [St.cfg]
@@ -1354,6 +1570,13 @@ def St.cfg (s : St) : Bool × List Nat := (s.withLock, s.suspPat)
       have : s' = (closeKid s i).1 := by rw [heq]
       rw [ih, this]; simp
 
+@[simp] theorem cfg_clearBuffers (s : St) : (clearBuffers s).cfg = s.cfg := by simp [St.cfg]
+
+@[simp] theorem cfg_closeAll (s : St) : (closeAll s).1.cfg = s.cfg := by
+  by_cases hb : (closeFrom s (List.range s.kids.length)).2 = .busy
+  · rw [closeAll_busy s hb]; simp
+  · rw [closeAll_not_busy s hb]; simp
+
 @[simp] theorem cfg_step (s : St) (op) : (step s op).1.cfg = s.cfg := by
   cases op <;> simp only [step] <;> (try split) <;> simp
 
@@ -1364,7 +1587,7 @@ theorem cfg_runOps (s : St) (ops) : (runOps s ops).cfg = s.cfg := by
 
 theorem safe_of_cfg {s s' : St} (h : s'.cfg = s.cfg) : Safe s' ↔ Safe s := by
   simp only [St.cfg, Prod.mk.injEq] at h
-  simp [Safe, NoSusp, h.1, h.2]
+  simp [Safe, NoSusp, h.1, h.2.1]
 
 theorem noSusp_of_zeros (susp : List Nat) (h : ∀ k ∈ susp, k = 0) (n : Nat) : susp.getD n 0 = 0 := by
   rw [List.getD_eq_getElem?_getD]
@@ -1377,20 +1600,7 @@ theorem noSusp_of_zeros (susp : List Nat) (h : ∀ k ∈ susp, k = 0) (n : Nat) 
   | sched i => simp only [step]; split; exact (sched_eff s i ‹_›).len; rfl
   | close i => simp only [step]; split; simp; rfl
   | cancel i => simp only [step]; split; exact (cancel_eff s i ‹_›).len; rfl
-  | closeAll =>
-    simp only [step]
-    generalize List.range s.kids.length = l
-    induction l generalizing s with
-    | nil => rfl
-    | cons i rest ih =>
-      unfold closeFrom
-      split
-      · rename_i s' heq
-        have : s' = (closeKid s i).1 := by rw [heq]
-        rw [this]; simp
-      · rename_i s' o hne heq
-        have : s' = (closeKid s i).1 := by rw [heq]
-        rw [ih, this]; simp
+  | closeAll => simp only [step]; simp
 
 theorem length_runOps (s : St) (ops) : (runOps s ops).kids.length = s.kids.length := by
   induction ops generalizing s with
@@ -1411,6 +1621,178 @@ instance decNoEarlyClose : (s : St) → (ops : List Op) → Decidable (NoEarlyCl
   | s, op :: ops => @instDecidableAnd _ _ _ (decNoEarlyClose (step s op).1 ops)
 
 
+/-! ## Once no buffer is registered, a source that can be closed has been closed -/
+
+/-- the converse of `DInv.closedAll` (for a tee with at least one child) -/
+def ClosedLast (s : St) : Prop :=
+  s.closeable = true → 0 < s.kids.length →
+    (∀ j, j < s.kids.length → (s.kid j).buf = none) → 0 < s.srcCloses
+
+theorem ClosedLast.of_some {s : St} (i : Nat) (hi : i < s.kids.length) (hb : (s.kid i).buf ≠ none) :
+    ClosedLast s :=
+  fun _ _ h => absurd (h i hi) hb
+
+theorem ClosedLast.of_eq {s s' : St} (h : ClosedLast s) (hk : s'.kids = s.kids)
+    (hc : s'.closeable = s.closeable) (hx : s'.srcCloses = s.srcCloses) : ClosedLast s' := by
+  have hkid : ∀ j, s'.kid j = s.kid j := by intro j; simp [St.kid, hk]
+  unfold ClosedLast
+  simp only [hkid, hk, hc, hx]
+  exact h
+
+theorem ClosedLast.setKid_ok {s : St} (h : ClosedLast s) (i : Nat) (hi : i < s.kids.length) (c : Child)
+    (hb : c.buf = none → (s.kid i).buf = none) : ClosedLast (s.setKid i c) := by
+  intro hc hn hall
+  simp only [length_setKid, setKid_closeable, setKid_srcCloses] at *
+  apply h hc hn
+  intro j hj
+  have := hall j hj
+  rw [kid_setKid _ _ _ _ hi] at this
+  by_cases hji : j = i
+  · subst hji; simp only [if_true] at this; exact hb this
+  · simpa [hji] using this
+
+theorem finishKid_srcCloses_eq (s : St) (i t) :
+    (finishKid s i t).srcCloses =
+      if ((finishKid s i t).kids.all (fun c => c.buf.isNone) && s.closeable) = true
+      then s.srcCloses + 1 else s.srcCloses := by
+  unfold finishKid; simp only []
+  split
+  · rename_i h; simp only [setKid_closeable] at h; simp [h]
+  · rename_i h; simp only [setKid_closeable] at h; simp [h]
+
+/-- the `finally` block establishes it outright -/
+theorem finishKid_closedLast (s : St) (i t) : ClosedLast (finishKid s i t) := by
+  intro hc _ hall
+  have ha := (all_none_iff _).2 hall
+  rw [finishKid_closeable] at hc
+  rw [finishKid_srcCloses_eq, ha, hc]
+  simp
+
+theorem popYield_closedLast (s : St) (i : Nat) (hi : i < s.kids.length) : ClosedLast (popYield s i).1 := by
+  unfold popYield
+  split
+  · exact ClosedLast.of_some i (by simpa using hi) (by rw [kid_setKid _ _ _ _ hi]; simp)
+  · exact finishKid_closedLast _ _ _
+
+theorem completeFetch_closedLast (s : St) (i : Nat) (hi : i < s.kids.length) :
+    ClosedLast (completeFetch s i).1 := by
+  unfold completeFetch
+  split
+  · exact finishKid_closedLast _ _ _
+  · split
+    · exact finishKid_closedLast _ _ _
+    · exact popYield_closedLast _ i (by simpa using hi)
+
+theorem ClosedLast.startFetch_ok {s : St} (h : ClosedLast s) (i : Nat) (hi : i < s.kids.length) :
+    ClosedLast (startFetch s i).1 := by
+  unfold startFetch
+  simp only []
+  split
+  · exact completeFetch_closedLast _ i (by simpa using hi)
+  · split
+    · exact completeFetch_closedLast _ i (by simpa using hi)
+    · refine ClosedLast.setKid_ok (h.of_eq rfl rfl rfl) i (by simpa using hi) _ (fun e => e)
+
+theorem ClosedLast.enterCritical_ok {s : St} (h : ClosedLast s) (i : Nat) (hi : i < s.kids.length) :
+    ClosedLast (enterCritical s i).1 := by
+  unfold enterCritical
+  simp only []
+  have hk : (if s.withLock = true then { s with holder := some i } else s).kids = s.kids := by
+    split <;> rfl
+  split
+  · exact popYield_closedLast _ i (by simpa [hk] using hi)
+  · exact ClosedLast.startFetch_ok (h.of_eq hk (by split <;> rfl) (by split <;> rfl)) i (by simpa [hk] using hi)
+
+theorem ClosedLast.loopTop_ok {s : St} (h : ClosedLast s) (i : Nat) (hi : i < s.kids.length) :
+    ClosedLast (loopTop s i).1 := by
+  unfold loopTop
+  split
+  · exact popYield_closedLast s i hi
+  · split
+    · exact h.setKid_ok i hi _ (fun e => e)
+    · exact h.enterCritical_ok i hi
+
+theorem ClosedLast.sched_ok {s : St} (h : ClosedLast s) (i : Nat) (hi : i < s.kids.length) :
+    ClosedLast (sched s i).1 := by
+  unfold sched
+  split
+  · split
+    · exact h.setKid_ok i hi _ (fun e => e)
+    · exact h.loopTop_ok i hi
+    · exact h.loopTop_ok i hi
+    · split
+      · exact h
+      · exact h.enterCritical_ok i hi
+    · exact completeFetch_closedLast s i hi
+    · exact h.setKid_ok i hi _ (fun e => e)
+  · exact h
+
+theorem ClosedLast.closeKid_ok {s : St} (h : ClosedLast s) (i : Nat) (hi : i < s.kids.length) :
+    ClosedLast (closeKid s i).1 := by
+  unfold closeKid
+  split
+  · exact h.setKid_ok i hi _ (fun e => e)
+  · exact finishKid_closedLast _ _ _
+  · exact h
+  · exact h
+
+theorem ClosedLast.cancel_ok {s : St} (h : ClosedLast s) (i : Nat) (hi : i < s.kids.length) :
+    ClosedLast (cancel s i).1 := by
+  unfold cancel
+  split
+  · split
+    · exact finishKid_closedLast _ _ _
+    · exact finishKid_closedLast _ _ _
+    · exact h.setKid_ok i hi _ (fun e => e)
+  · exact h
+
+theorem ClosedLast.closeFrom_ok {s : St} (h : ClosedLast s) (l : List Nat) (hl : ∀ i ∈ l, i < s.kids.length) :
+    ClosedLast (closeFrom s l).1 := by
+  induction l generalizing s with
+  | nil => exact h
+  | cons i rest ih =>
+    have h1 := h.closeKid_ok i (hl i (by simp))
+    rw [closeFrom_cons]
+    split
+    · exact h1
+    · exact ih h1 (by intro k hk; rw [closeKid_length]; exact hl k (by simp [hk]))
+
+theorem ClosedLast.clearBuffers_ok {s : St} (h : ClosedLast s) : ClosedLast (clearBuffers s) := by
+  intro hc hn _
+  rw [clearBuffers_closeable] at hc
+  rw [clearBuffers_length] at hn
+  cases hany : s.kids.any (fun c => c.buf.isSome) with
+  | true => rw [clearBuffers_srcCloses_of_any s hany hc]; omega
+  | false =>
+    have := h hc hn ((any_some_iff s).1 hany)
+    have := clearBuffers_srcCloses_mono s
+    omega
+
+theorem ClosedLast.closeAll_ok {s : St} (h : ClosedLast s) : ClosedLast (closeAll s).1 := by
+  have h1 := h.closeFrom_ok _ (range_lt s)
+  by_cases hb : (closeFrom s (List.range s.kids.length)).2 = .busy
+  · rw [closeAll_busy s hb]; exact h1
+  · rw [closeAll_not_busy s hb]; exact h1.clearBuffers_ok
+
+theorem ClosedLast.step_ok {s : St} (h : ClosedLast s) (op : Op) : ClosedLast (step s op).1 := by
+  cases op with
+  | sched i => simp only [step]; split; exact h.sched_ok i ‹_›; exact h
+  | close i => simp only [step]; split; exact h.closeKid_ok i ‹_›; exact h
+  | cancel i => simp only [step]; split; exact h.cancel_ok i ‹_›; exact h
+  | closeAll => exact h.closeAll_ok
+
+theorem ClosedLast.runOps_ok {s : St} (h : ClosedLast s) (ops : List Op) : ClosedLast (runOps s ops) := by
+  induction ops generalizing s with
+  | nil => exact h
+  | cons op rest ih => exact ih (h.step_ok op)
+
+theorem init_closedLast (items : List Val) (n : Nat) (susp : List Nat) (lock closeable dies : Bool) :
+    ClosedLast (init items n susp lock closeable dies) := by
+  intro _ hn hall
+  have := hall 0 hn
+  rw [kid_init] at this
+  simp at this
+
 /-! ## Reachable states -/
 
 /-- the precondition of the property: a lock is supplied, or the source never suspends -/
@@ -1423,6 +1805,16 @@ theorem reach_inv (items n susp lock closeable dies ops) :
 theorem reach_len (items n susp lock closeable dies ops) :
     (reach items n susp lock closeable dies ops).kids.length = n := by
   simp [reach, length_runOps, init]
+
+theorem reach_closedLast (items n susp lock closeable dies ops) :
+    ClosedLast (reach items n susp lock closeable dies ops) :=
+  (init_closedLast items n susp lock closeable dies).runOps_ok ops
+
+theorem reach_closeable (items n susp lock closeable dies ops) :
+    (reach items n susp lock closeable dies ops).closeable = closeable := by
+  have := cfg_runOps (init items n susp lock closeable dies) ops
+  simp only [St.cfg, Prod.mk.injEq] at this
+  exact this.2.2
 
 theorem reach_safe (items n susp lock closeable dies ops) (h : Pre lock susp) :
     Safe (reach items n susp lock closeable dies ops) := by
